@@ -84,6 +84,18 @@ theorem C18_store_is_fold_of_complete (limit now : Nat) (s : σ) (frames : List 
   simp only [feed, Conn.init, Bool.false_eq_true, if_false, List.nil_append, this]
   split <;> rfl
 
+
+/-- **a connection that timed out is over, whatever it was doing**: after the receive timeout — also in the middle of a request,
+    also while an oversized body was being discarded — nothing that arrives later is executed or answered, and the store is
+    untouched by the timeout itself. (The bytes that complete a stalled oversized body, or that follow it, are never parsed
+    as requests: the discard is not resumed and not restarted.) -/
+theorem C18_timeout_contained {σ : Type} (C : CacheOps σ) (limit now : Nat) (c : Conn) (s : σ) (later : Bytes) :
+    feed C limit now (idleTimeout c) s later = (idleTimeout c, s, []) ∧
+    eof C now (idleTimeout c) s = (idleTimeout c, s, []) := by
+  have hc : (idleTimeout c).closed = true := by
+    unfold idleTimeout; by_cases h : c.closed = true <;> simp [h, Conn.dead]
+  exact ⟨by simp [feed, hc], by simp [eof, hc]⟩
+
 end Memc
 
 #print axioms Memc.C18_truncated_no_event
@@ -93,3 +105,4 @@ end Memc
 #print axioms Memc.C18_eof_contained
 #print axioms Memc.C18_protoErr_contained
 #print axioms Memc.C18_store_is_fold_of_complete
+#print axioms Memc.C18_timeout_contained
